@@ -57,9 +57,18 @@ func TestC07(t *testing.T) {
 		cl.Sub = []sys.SubCluster{sc}
 		// "flap" cluster: one backend that the health state machine takes out of rotation after
 		// two request failures and brings back after one successful TCP probe (every 20 ms)
-		fl := sys.Cluster{Name: "cflap", RetryMax: 0, RetryLevel: 0, TimeoutResponseHeaderMs: 2000, TimeoutConnSrvMs: 500, FailNum: 2, CheckIntervalMs: 20,
+		fl := sys.Cluster{Name: "cflap", RetryMax: 0, RetryLevel: 0, TimeoutResponseHeaderMs: 30000, TimeoutConnSrvMs: 500, FailNum: 2, CheckIntervalMs: 20,
 			Sub: []sys.SubCluster{{Name: "sf", Weight: 100, Backends: []sys.BackendSpec{{Name: "bflap", Addr: "127.0.0.1", Port: p[3], Weight: 10}}}}}
-		return sys.SimpleConf("v0", []sys.Cluster{cl, fl}, []sys.Rule{
+		// "hold" cluster: same backends as c, but a response header timeout long enough for a
+		// batch of requests to be parked inside backends however loaded the machine is
+		hl := sys.Cluster{Name: "chold", RetryMax: 0, RetryLevel: 0, TimeoutResponseHeaderMs: 30000, TimeoutConnSrvMs: 2000, BalanceMode: "WLC"}
+		hsc := sys.SubCluster{Name: "sh", Weight: 100}
+		for i, port := range p[:3] {
+			hsc.Backends = append(hsc.Backends, sys.BackendSpec{Name: fmt.Sprintf("h%d", i), Addr: "127.0.0.1", Port: port, Weight: 10})
+		}
+		hl.Sub = []sys.SubCluster{hsc}
+		return sys.SimpleConf("v0", []sys.Cluster{cl, fl, hl}, []sys.Rule{
+			{Cond: `req_path_prefix_in("/c07h/", false)`, Cluster: "chold"},
 			{Cond: `req_path_prefix_in("/c07f/", false)`, Cluster: "cflap"},
 			{Cond: `default_t()`, Cluster: "c"},
 		})
@@ -163,7 +172,7 @@ func TestC07(t *testing.T) {
 			var wg sync.WaitGroup
 			var targets []string
 			for i := 0; i < k; i++ {
-				tg := fmt.Sprintf("/c07/%d/h%d", n, i)
+				tg := fmt.Sprintf("/c07h/%d/h%d", n, i)
 				targets = append(targets, tg)
 				w.setScript(tg, &respScript{Fault: "hold"})
 				wg.Add(1)
